@@ -236,6 +236,7 @@ func C12Scenarios(tier string) []*Scenario {
 	}
 	out = append(out, c12StringSettings(&n)...)
 	out = append(out, nestedScenarios(80000, "C12")...)
+	out = append(out, mixedSkipCopyRecursive(85000, "C12")...)
 	sort.SliceStable(out, func(i, j int) bool { return strings.Join(out[i].Global, "\x00") < strings.Join(out[j].Global, "\x00") })
 	return out
 }
@@ -521,6 +522,49 @@ func nestedScenarios(start int, prop string) []*Scenario {
 			for _, cv := range []string{"absent", "yes", "no"} {
 				n++
 				out = append(out, buildNested(fmt.Sprintf("%05d", n), p.key, p.apply, p.s, p.t, other, cv, p.mode, prop))
+			}
+		}
+	}
+	return out
+}
+
+// mixedSkipCopyRecursive: converter-level and method-level skipCopySameType disagree on a self-referential struct with a
+// field of identical named type: the method is built twice (recursion marks it dirty) and helpers created in the first
+// pass must still be used (or not be emitted) after the second.
+func mixedSkipCopyRecursive(start int, prop string) []*Scenario {
+	var out []*Scenario
+	n := start
+	for _, cv := range []string{"absent", "yes", "no"} {
+		for _, me := range []string{"absent", "yes", "no"} {
+			for _, shape := range []string{"ptr-ptr", "val-val", "slice"} {
+				n++
+				id := fmt.Sprintf("%05d", n)
+				sc := &Scenario{ID: "N" + id, PropGen: prop, PropVal: prop, Test: "Convert", Funcs: map[string]string{},
+					Desc: map[string]any{"class": "mixed-skipcopy-recursive shape=" + shape, "converter": cv, "method": me}}
+				conv := &model.Converter{OutPkg: "conv/generated", LitPkg: "conv"}
+				sc.Conv = conv
+				sc.ConvLines = append(sc.ConvLines, boolLine("skipCopySameType", cv)...)
+				conv.Set.SkipCopySameType = resolveBool(false, cv)
+				eff := conv.Set
+				eff.SkipCopySameType = resolveBool(false, me, cv)
+				inner := &space.Decl{Pkg: "in", Name: "I" + id, Under: space.St(f("Tags", space.S(tStr)), f("Q", space.P(tInt)))}
+				x := &space.Decl{Pkg: "in", Name: "X" + id}
+				y := &space.Decl{Pkg: "out", Name: "Y" + id}
+				x.Under = space.St(f("Name", tStr), f("Inner", space.N(inner)), f("Children", space.S(space.N(x))))
+				y.Under = space.St(f("Name", tStr), f("Inner", space.N(inner)), f("Children", space.S(space.N(y))))
+				sc.Decls = []*space.Decl{inner, x, y}
+				src, dst := space.N(x), space.N(y)
+				switch shape {
+				case "ptr-ptr":
+					src, dst = space.P(src), space.P(dst)
+				case "slice":
+					src, dst = space.S(src), space.S(dst)
+				}
+				mm := &model.Method{Name: "Convert", Src: src, Dst: dst, Set: eff, Fields: map[string]*model.FieldCfg{}}
+				conv.Methods = []*model.Method{mm}
+				sc.Methods = []*ScMethod{{Name: "Convert", Params: "source " + src.Go("conv"), Result: dst.Go("conv"), Lines: boolLine("skipCopySameType", me), M: mm}}
+				sc.Mode = "value,alias,nomutate"
+				out = append(out, sc)
 			}
 		}
 	}
